@@ -244,7 +244,7 @@ func checkScript(sc Script) (skipped bool, err error) {
 	a := sess.New(scriptCfg)
 	a.Run(gen.TypedPrelude)
 	ra := a.Run(whole)
-	if ra.Cont || sess.TimedOut(ra) {
+	if ra.Cont || sess.TimedOut(ra) || sess.MemoryRefused(ra) {
 		return true, nil
 	}
 	wholeFails := ra.Failed() // then the chunk holding the failing statement must fail too, after the same output
@@ -260,7 +260,7 @@ func checkScript(sc Script) (skipped bool, err error) {
 		prev = sp
 		rb := b.Run(chunk)
 		out.WriteString(rb.Out)
-		if sess.TimedOut(rb) {
+		if sess.TimedOut(rb) || sess.MemoryRefused(rb) {
 			return true, nil
 		}
 		if wholeFails && rb.Failed() && !rb.Cont {
